@@ -1,19 +1,50 @@
 """C12 — generated code agrees with the dynamic interpreter internal/pure/onthefly (DESIGN.md §4 C12); TL1 part."""
 from checks import codec_common as cc
+from vlib.core import hx
 
 LEVEL = "translation_validation"
+# known finding: onthefly readers have no element-count sanity check (generated code: CheckLengthSanity), identified by call site
+OTF_KEY = "onthefly:ReadTL1-no-length-sanity:t_array_value.go/t_dict_value.go"
 
 
 def run(c):
-    model, hcodec, schemas = cc.prepare(c, cc.corpus(c)[:1] if not c.thorough else None)
+    model, hcodec, schemas = cc.prepare(c, [s for s in cc.corpus(c) if s.sid in ("cases", "gold")])
     rng = c.rng
+    c.impl_mem_limit = 2 << 30
+    c.impl_timeout = 120
     for sc in schemas:
-        lines = cc.x1_lines(sc, rng, 20 if c.thorough else 6, big=c.thorough, mutants=2)
+        # valid encodings, truncations and small mutations; count inflation only through a handful of fixed probes (each costs the interpreter GBs)
+        g = cc.Gen1(sc, rng.fork(), big=c.thorough)
+        lines = []
+        for inst, it in sc.items:
+            for boxed in (0, 1):
+                if inst["kind"] == "union" and not boxed:
+                    continue
+                for _ in range(20 if c.thorough else 6):
+                    b = g.value(inst["idx"], not boxed, [], 0)
+                    lines.append("codec.x1 %s %d %s %d %s" % (sc.sid, inst["idx"], inst["tlname"], boxed, hx(b + (rng.bytes(rng.below(4)) if rng.chance(1, 3) else b""))))
+                    lines.append("codec.x1 %s %d %s %d %s" % (sc.sid, inst["idx"], inst["tlname"], boxed, hx(b[:rng.below(len(b) + 1)])))
+                    if len(b) >= 4:
+                        m = bytearray(b)
+                        i = rng.below(len(m))
+                        m[i] ^= 1 << rng.below(3)          # low bits only: keeps counts small
+                        lines.append("codec.x1 %s %d %s %d %s" % (sc.sid, inst["idx"], inst["tlname"], boxed, hx(bytes(m))))
+        probes = []
+        for inst, it in sc.items:
+            if "array" in cc.reach_kinds(sc, inst["idx"]) and inst["kind"] == "struct" and len(probes) < 3:
+                probes.append("codec.x1 %s %d %s 0 %s" % (sc.sid, inst["idx"], inst["tlname"], "ffffff7f" * 3))
         pre = [sc.desc_line()]
-        res_gen = c.tie("gen-vs-model:" + sc.sid, lines, sc.impl, model, prefix=pre)
-        res_otf = c.tie("otf-vs-model:" + sc.sid, lines, sc.otf, model, prefix=pre)
+        res_gen = c.tie("gen-vs-model:" + sc.sid, lines + probes, sc.impl, model, prefix=pre)
+        res_otf = c.tie("otf-vs-model:" + sc.sid, lines + probes, sc.otf, model, prefix=pre)
         for (l, a, _), (_, b, _) in zip(res_gen, res_otf):
             if a != b:
+                if l in probes and a == "err eof" and b in ("CRASH", "TIMEOUT", "err eof", "panic"):
+                    c.oracle_failures.append({"key": OTF_KEY, "what": "otf", "input": l})
+                    continue
                 c.oracle_fail(l, "generated code and dynamic interpreter disagree: generated %s, interpreter %s" % (a[:100], b[:100]), l)
+        # tie failures of the interpreter on the probes are explained by the known finding
+        for t in c.tie_failures:
+            if t["line"] in probes and t["tie"].startswith("otf-vs-model"):
+                t["explained"] = True
     c.extra["rule"] = "same TL1 case lines served by generated code, by onthefly.CreateValue(instance) and by the Lean model; three-way comparison"
     c.extra["explanation"] = "three-way differential run"
